@@ -68,6 +68,13 @@ def query_side(ctx, h, res):
     for d_, f_ in itertools.product(("FORWARD", "BACKWARD", "ANY"), ("none", "accept", "rejD")):
         for u_ in c04.UHS[:2]:     # ERROR differs from the other modes only in unknown_handling: a key that conflates them serves a list where an exception is due
             pairs += [((d_, u_, f_), (d_, "ERROR", f_)), ((d_, "ERROR", f_), (d_, u_, f_))]
+    # a direction given as a plain bool is equal, as a dictionary key, to the constant with the same numeric value: whatever such a
+    # call means, its cached answer must be its uncached answer
+    C = dict(C)
+    C["bool-True"], C["bool-False"] = True, False
+    for d_ in ("FORWARD", "ANY", "BACKWARD"):
+        for b_ in ("bool-True", "bool-False"):
+            pairs += [((d_, "NEIGHBOR", "none"), (b_, "NEIGHBOR", "none")), ((b_, "NEIGHBOR", "none"), (d_, "NEIGHBOR", "none"))]
     for s1, s2 in pairs:
         try:
             res2 = []
